@@ -185,18 +185,12 @@ fn tag_optional_children(
     if let Some(current_tag) = root.get_child(&to_str(e.name())?) {
         let parent = current_tag.inner_t();
 
-        for (child_name, child_count) in children_count.iter() {
-            if let Some(c) = parent.get_child(child_name) {
-                if child_count == &c.inner_t().count() {
-                    to_optional.push(child_name.clone());
-                }
-            }
-        }
-
+        // walk the children in their stored order (not the HashMap) to keep the result deterministic
         for child in parent.children().iter() {
             if let Necessity::Mandatory(c) = child {
-                if !children_count.contains_key(&c.name) {
-                    to_optional.push(c.name.clone());
+                match children_count.get(&c.name) {
+                    Some(child_count) if child_count != &c.count() => (),
+                    _ => to_optional.push(c.name.clone()),
                 }
             }
         }
